@@ -656,10 +656,11 @@ def gen_C10(r, tier):
         cases.append("s2m 15 12 %d fa %s" % (r.pick([1, 4]), hxlist(recs)))
     # records with thousands of runs each (a writer that hands a line over in pieces shows only there)
     for _ in range(1 if n <= 400 else 4):
-        recs = [long_record(r, 14000 + r.below(1000)) for _ in range(8)] + many_records(r, 10, 20, 60)      # 8 lines of > 64 KiB
+        recs = [long_record(r, 14000 + r.below(1000)) for _ in range(8)] + many_records(r, 10, 20, 60)
         t = r.pick([4, 8, 16])
-        cases.append("s2m 8 5 %d fa %s" % (t, hxlist(recs)))
+        cases.append("s2m 8 5 %d fa %s" % (t, hxlist(recs)))                 # lines of about 60 KiB
         cases.append("m2s 8 5 %d fa %s" % (t, hxlist(recs)))
+        cases.append("s2m 29 28 %d fa %s" % (r.pick([8, 16]), hxlist(recs)))     # a run at almost every base, 28-mers as text: lines of about 400 KiB
     # more than ten thousand short records, handled within a second (progress reporting every 10000 records)
     recs = [bytes(r.choices(NUC, k=12 + r.below(4))) for _ in range(10500 if n <= 400 else 25000)]
     cases.append("s2m 0 7 %d fa %s" % (r.pick([1, 4]), hxlist(recs)))
@@ -963,6 +964,15 @@ def gen_C15(r, tier):
         if sub == "oligo" and (d["k"] is None or 3 <= d["k"] <= 7) and d.get("in") is None:
             delim = {None: b" ", "spc": b" ", "csv": b",", "tsv": b"\t"}[d["p"]]
             cases.append("ofile %d %d %d %s %d 4294967296 auto %s 60 %s" % (d["k"] or 3, 0 if d["c"] else 1, 1 if d["H"] else 0, hx(delim), d["t"] or 0, cont, hxlist(recs)))
+    # default (mapped) output, --counts and stdin input on records with 128 m windows (exact ties at the 7th decimal),
+    # and on a file with a record header on a reader-block boundary
+    for kk in (3, 4):
+        recs = [bytes(r.choices(NUC, k=128 * mm + kk - 1)) for mm in (1, 2, 3)]
+        for extra in ({}, {"c": 1}, {"in": "-"}, {"H": 1, "p": "csv"}):
+            cases.append(cli_case("oligo", dict({"k": kk}, **extra), "fa", recs))
+    recs = block_aligned_records(r, 0)
+    for extra in ({}, {"c": 1}, {"t": 1}):
+        cases.append(cli_case("oligo", dict({"k": 3}, **extra), "fa", recs))
     # -t must not change the set of lines even when every worker meets the same new minimiser / k-mer at once
     for _ in range({"quick": 8, "thorough": 60}[tier]):
         base = [bytes(r.choices(NUC, k=30 + r.below(40))) for _ in range(1 + r.below(3))]
